@@ -204,6 +204,7 @@ Definition takeMsg (s : st) (now : Z) : st * list event :=
   take (length (pending s)) s now.
 
 (* ---- die / reset / 376 / PONG ---- *)
+(* Irc.die: zombie := True; if <gen.T19.DIE_AT_ONCE_TEST = "not self.afterConnect">: _reallyDie() *)
 Definition die (s : st) : st * list event :=
   let s1 := set_zombie s true in
   if afterConnect s1 then (s1, []) else (set_dead s1 true, [DriverDie]).
